@@ -75,7 +75,7 @@ CHECKS = {
             "DESIGN.md section 4, C06"),
     "C07": ("exploration",
             "bounded-exhaustive enumeration (256 contents x 512 filter triples) + rapid chains; oracle = exact event multiset / identity / restoration between two barriers",
-            "Every parent content over the 4-key universe and every ordered triple of the 8-filter family is executed against a real filtered subscription as a chain of Refilter calls; each call's events between two double-marker barriers must be exactly one Delete per cached object the new filter rejects and one Create per newly accepted parent object, retained objects keep their identity, equal filters emit nothing, and returning to the first filter restores its view; the same over all ordered pairs of a 15-member composite family (duplicated / permuted / replaced children, empty composites, double negation), and rapid chains over family filters and generated structurally-nearby filters on deeper trees. The quick tier already runs both complete enumerations.",
+            "Every parent content over the 4-key universe and every ordered triple of the 8-filter family is executed against a real filtered subscription as a chain of Refilter calls; each call's events between two double-marker barriers must be exactly one Delete per cached object the new filter rejects and one Create per newly accepted parent object, retained objects keep their identity, equal filters emit nothing, and returning to the first filter restores its view; the same over all ordered pairs of a 19-member composite family (duplicated / permuted / replaced children, empty composites, double negation), and rapid chains over family filters and generated structurally-nearby filters on deeper trees. The quick tier already runs both complete enumerations.",
             "Premise of the property is enforced by the harness: the node is ready and no parent event is in flight during a checked Refilter.",
             "DESIGN.md section 4, C07"),
     "C08": ("exploration",
